@@ -338,7 +338,9 @@ Proof.
     destruct (fold_left (hexpire_one (aclock s)) (hsort (filter (is_due (aclock s)) (map hn (aarr s))))
                         (filter (notdue (aclock s)) h, arefer s, [])) as [[h2 r2] o2].
     cbn [fst snd] in *. subst r2 o2. split; [|reflexivity].
+    assert (Htc : tick_clock m = sclock m) by (unfold tick_clock; rewrite Ec; reflexivity).
     exists h2. cbn [score sclock srefer snext spadd spdel aarr aoutside aclock arefer anext apadd apdel].
+    rewrite Htc.
     split; [reflexivity|]. split; [etransitivity; [exact S3|exact P3]|]. repeat split; auto; apply S4.
   - cbn [fst snd]. split; [|exact I]. exists h. repeat split; auto; apply Hok.
 Qed.
